@@ -266,3 +266,10 @@ package ice
 //@   site call Contains#1 assert C03 asks-the-message-for-use-candidate: arg0 == msg && arg1 == stun.AttrUseCandidate
 //@   site call Contains#1 ghost useCand := result
 //@   site call append#1 assert C20 C03 the-pending-transaction-remembers-what-kind-of-nomination-it-carries: arg1[0].isUseCandidate == useCand && (arg1[0].nominationValue != nil) == nomDecoded
+
+// The nomination request is keyed with the REMOTE password and goes out over the pair being nominated.
+//@ func (*controllingSelector).nominatePair
+//@   props C02 C03
+//@   opt nosafety
+//@   site call NewShortTermIntegrity#1 assert C02 the-nomination-is-keyed-with-the-remote-password: arg0 == s.agent.remotePwd
+//@   site call sendBindingRequest#1 assert C02 C03 goes-out-over-the-nominated-pair: arg2 == pair.Local && arg3 == pair.Remote
